@@ -202,6 +202,17 @@ def graph_problems(a, b, result):
                     bad.append((name, "exists", f"no part file edge for {f}"))
                 elif (str(pe["vars"].get("reuse_tolerance")), str(pe["vars"].get("wh"))) != (str(c["reuse_tolerance"]), str(c["ascender"] - c["descender"])):
                     bad.append((name, "own variables", f"part file of {f}: tolerance/wh {pe['vars']}"))
+    # every file a step is told to read (its *_file variables) is a declared input of the
+    # edge: otherwise a re-run with changed options leaves the font of the previous options
+    seen = set()
+    for out_name, e in edges.items():
+        if id(e) in seen:
+            continue
+        seen.add(id(e))
+        declared = set(e["inputs"]) | set(e["implicit"])
+        for k, v in e["vars"].items():
+            if k.endswith("_file") and v not in declared:
+                bad.append((out_name, "declared inputs", f"{k} = {v} is read by the step but is not an input of the edge"))
     merged = edges.get("parts-merged.json")
     if merged is not None:
         kinds = {(edges[p]["vars"].get("reuse_tolerance"), edges[p]["vars"].get("wh")) for p in merged["inputs"] if p in edges}
